@@ -31,9 +31,10 @@ class Node:
 class Recorder:
     """Wraps module-level generator functions so that recursive calls are recorded as a tree."""
 
-    def __init__(self, targets):
+    def __init__(self, targets, lin=None):
         self.targets = targets  # [(module, name, kind)]
         self.stack, self.roots, self.saved = [], [], []
+        self.lin = lin  # a c08_lin.LinRecorder(deep=True) active at the same time: each node remembers its slice
 
     def __enter__(self):
         for mod, name, kind in self.targets:
@@ -46,10 +47,14 @@ class Recorder:
                 node = Node(_kind + ":" + _name, a, bb)
                 (self.stack[-1].children if self.stack else self.roots).append(node)
                 self.stack.append(node)
+                if self.lin is not None:
+                    node.lin0 = (len(self.lin.records), len(self.lin.pair_gates))
                 try:
                     out = _orig(circuit, a, bb, **kw) if b is not None else _orig(circuit, a, **kw)
                 finally:
                     self.stack.pop()
+                    if self.lin is not None:
+                        node.lin1 = (len(self.lin.records), len(self.lin.pair_gates))
                 node.out = list(out)
                 node.big_endian = bool(kw.get("big_endian"))
                 if node.big_endian:
@@ -138,11 +143,35 @@ def check_karatsuba_node(p, c, node, where):
     return probs
 
 
+LEAF_FNS = {"last_step_sum_with_new_powers_sum": "mul", "add_mul_pow2_m1": "mul", "add_square_pow2_m1": "square"}
+
+
+def leaf_by_conservation(p, c, node, lin):
+    """A leaf too wide for the direct query, proved *in situ* by linear conservation (checks/c08_lin.py): the
+    summation blocks recorded while this very leaf was generated, the leaf's operand labels as cut points.
+    Returns 'proved' | 'wrong' | 'assumed'."""
+    from checks import c08_lin
+
+    fname = node.kind.split(":", 1)[1]
+    if lin is None or fname not in LEAF_FNS or not hasattr(node, "lin0"):
+        return "assumed"
+    square = LEAF_FNS[fname] == "square"
+    ops = list(node.a) + ([] if square else list(node.b))
+    if len(set(ops)) != len(ops):
+        return "assumed"  # an operand gate used at two positions (padding): the partial products cannot be told apart
+    sl = c08_lin.RecordSlice(lin, node.lin0[0], node.lin1[0], node.lin0[1], node.lin1[1])
+    probs, stats, wit = c08_lin.conservation_core(p, c, list(node.a), list(node.a) if square else list(node.b), list(node.out), sl, square)
+    if any("inconclusive" not in x for x in probs):
+        node.lin_problem = probs[0]
+        return "wrong"
+    return "assumed" if probs else "proved"
+
+
 def check_leaf(p, c, node, where, max_leaf_bits, timeout_ms):
-    """S4 for one leaf.  Returns ('ok'|'assumed'|'wrong'|'inconclusive')."""
+    """S4 for one leaf.  Returns ('ok'|'proved'|'assumed'|'wrong'|'inconclusive')."""
     n, m = len(node.a), len(node.b)
     if n + m > max_leaf_bits:
-        return "assumed"
+        return leaf_by_conservation(p, c, node, LIN[0])
     ops = {l: z3.Bool(f"l_{i}") for i, l in enumerate(dict.fromkeys(node.a + node.b))}
     W = len(node.out)
     a, b = _bv([ops[l] for l in node.a], 2 * W), _bv([ops[l] for l in node.b], 2 * W)
@@ -167,6 +196,9 @@ def walk(p, c, node, where, stats, max_leaf_bits, leaf_timeout_ms):
     return probs
 
 
+LIN = [None]  # the deep summation recording of the run being checked
+
+
 MODES = {
     "KARATSUBA": ("add_mul_karatsuba_with_efficient_sum", "last_step_sum_with_new_powers_sum"),
     "KARATSUBA_PLAIN": ("add_mul_karatsuba", "add_mul_pow2_m1"),
@@ -178,8 +210,11 @@ def karatsuba_true_width(p, mode, n, m, max_leaf_bits=16, leaf_timeout_ms=120000
     rec_name, leaf_name = MODES[mode]
     c = Circuit.bare_circuit(n + m)
     a, b = list(c.inputs[:n]), list(c.inputs[n:])
-    with Recorder([(M, rec_name, "rec"), (M, leaf_name, "leaf")]) as R:
+    from checks import c08_lin
+
+    with c08_lin.LinRecorder(deep=True) as lin, Recorder([(M, rec_name, "rec"), (M, leaf_name, "leaf")], lin=lin) as R:
         out = getattr(M, rec_name)(c, a, b)
+    LIN[0] = lin
     root = R.roots[0]
     stats = {"nodes": 0, "gates": len(c.gates)}
     probs = []
@@ -209,8 +244,12 @@ def square_true_width(p, n, max_leaf_bits=16, leaf_timeout_ms=120000, big_endian
     """add_square at a width where it splits: result == aa + (ab << (mid+1)) + (bb << 2*mid)."""
     c = Circuit.bare_circuit(n)
     x = list(c.inputs)
-    with Recorder([(SQ, "add_square", "rec"), (SQ, "add_square_pow2_m1", "leafsq"), (SQ, "add_mul_karatsuba", "mul")]) as R:
+    from checks import c08_lin
+
+    with c08_lin.LinRecorder(deep=True) as lin, Recorder([(SQ, "add_square", "rec"), (SQ, "add_square_pow2_m1", "leafsq"), (SQ, "add_mul_karatsuba", "mul"),
+                                                          (M, "add_mul_karatsuba", "rec"), (M, "add_mul_pow2_m1", "leaf")], lin=lin) as R:
         out = SQ.add_square(c, x[::-1] if big_endian else x, big_endian=big_endian)
+    LIN[0] = lin
     root = R.roots[0]  # recorded in the little-endian view (see Recorder)
     stats = {"gates": len(c.gates)}
     if len(root.children) != 3:
@@ -248,4 +287,41 @@ def square_true_width(p, n, max_leaf_bits=16, leaf_timeout_ms=120000, big_endian
         probs.append("square identity lemma failed")
     stats["mid"] = mid
     stats["children"] = [f"{ch.kind} {len(ch.a)}x{len(ch.b) or len(ch.a)}" for ch in root.children]
+    # the three children themselves: half squares (2^k-1 squarer leaves, proved in situ by linear conservation)
+    # and the Karatsuba product of the halves (recursion nodes + leaves as in karatsuba_true_width)
+    verdicts = []
+    for nm, ch in (("aa", aa), ("bb", bb)):
+        if len(ch.children) == 1 and ch.children[0].kind.startswith("leafsq") and ch.children[0].out == ch.out and ch.children[0].a == ch.a:
+            v = leaf_by_conservation(p, c, ch.children[0], lin)
+        else:
+            v = "assumed"
+        verdicts.append(f"{nm}:{v}")
+        if v == "wrong":
+            probs.append(f"square {n}: the half square {nm} ({len(ch.a)} bits) is wrong: {getattr(ch.children[0], 'lin_problem', '')}")
+    kst = {"nodes": 0}
+    if len(ab.children) == 3:
+        ab.kind = "rec:add_mul_karatsuba"
+        kprobs = walk(p, c, ab, f"square{n}/ab", kst, max_leaf_bits, leaf_timeout_ms)
+        mids = set()
+
+        def collect(node):
+            if node.kind.startswith("rec") and len(node.children) == 3:
+                mids.add(len(node.children[1].a))
+                for q in node.children:
+                    collect(q)
+
+        collect(ab)
+        for md in sorted(mids):
+            if not algebra_lemma(p, md):
+                kprobs.append(f"algebra lemma failed for mid={md}")
+        probs += kprobs
+        verdicts.append("ab:" + ("wrong" if [x for x in kprobs if "inconclusive" not in x] else f"karatsuba nodes={kst['nodes']} " + " ".join(f"{k}={v}" for k, v in kst.items() if k.startswith("leaves_"))))
+    elif len(ab.children) == 1 and ab.children[0].kind.startswith("leaf") and ab.children[0].out == ab.out:
+        v = leaf_by_conservation(p, c, ab.children[0], lin)
+        verdicts.append(f"ab:{v}")
+        if v == "wrong":
+            probs.append(f"square {n}: the product of the halves is wrong")
+    else:
+        verdicts.append("ab:assumed")
+    stats["children_verdicts"] = verdicts
     return probs, stats
